@@ -436,6 +436,10 @@ func P5() []*Program {
 	out = append(out, prog("P5/same-match-name-in-object", Root("Msg", Sc("u8", "Kind"), Ob("Inner", "First"), Mt("Kind", "Body", K("Alpha", "1"), K("Beta", "2"))),
 		Pk("Inner", Sc("u16", "Sel"), Mt("Sel", "Body", K("Beta", "7"), K("Gamma", "8"))),
 		Pk("Alpha", Sc("u32", "A1"), Ds("A2")), Pk("Beta", Sc("u8", "B1")), Pk("Gamma", Rep(Sc("u16", "G1")))))
+	// two inline objects of one name with different layouts, reachable from the root without leaving it
+	out = append(out, prog("P5/same-inline-name-in-root", Root("Msg",
+		In("Buy", Sc("u8", "Side"), Rep(In("Leg", Sc("u16", "Qty"), Ds("Note")))),
+		In("Sell", Sc("u16", "Venue"), Rep(In("Leg", Sc("u32", "Px"), Sc("u8", "Flag"), Sc("u16", "Qty")))), Sc("u8", "Tail"))))
 	out = append(out, prog("P5/same-inline-name", Root("Msg", Ob("Buy", ""), Ob("Sell", "")),
 		Pk("Buy", Sc("u8", "B"), In("Leg", Sc("u16", "Px"), Ds("Sym"))), Pk("Sell", In("Leg", Sc("u32", "Qty")), Sc("u8", "S"))))
 	out = append(out, prog("P5/three-match-keys", append([]*Packet{Root("Msg", Sc("u16", "KindA"), Sc("u8", "KindB"), Ds("KindC"),
